@@ -214,6 +214,19 @@ def _coded_parts(ctx: Ctx, rng):
                 ctx.fail(f"the spec of part {text!r} of {f!r} does not regenerate the part", rp)
         except Exception as e:
             ctx.fail(f"the spec of part {text!r} of {f!r} cannot be re-used: {type(e).__name__}: {e}", rp)
+        # ... and ALONE on other data: rows of the training data in which one level of A does not occur give the corresponding rows of the
+        # part (the part's own spec carries the recorded levels of every factor it encodes, also of factors first encoded for an earlier part)
+        try:
+            kept = [r for r in range(n) if r not in dr]
+            sel = [k for k, r in enumerate(kept) if df["A"].iloc[r] != "z"][: max(2, len(kept) - 1)]
+            if sel and "bs(" not in text and "poly(" not in text:
+                sub_df = df.iloc[[kept[k] for k in sel]].reset_index(drop=True)
+                part_alone = m_.model_spec.get_model_matrix(sub_df)
+                if arr(part_alone).shape != arr(m_)[sel, :].shape or not np.allclose(arr(part_alone), arr(m_)[sel, :], atol=1e-12, equal_nan=True):
+                    ctx.fail(f"the spec of part {text!r} of {f!r}, re-used alone on the rows {[kept[k] for k in sel]} (level 'z' of A absent), gives "
+                             f"{arr(part_alone).tolist()}; these rows of the part are {arr(m_)[sel, :].tolist()}", rp)
+        except Exception as e:
+            ctx.fail(f"the spec of part {text!r} of {f!r} re-used alone on a row subset: {type(e).__name__}: {e}", rp)
     ctx.count("coded-parts", f"parts={len(parts)}")
 
 
